@@ -167,6 +167,9 @@ struct Kernel {
     stalled_until: u64,
     /// the emulator has stopped reading for good
     hung: bool,
+    /// selects in a row that reported the tty readable without a read of the tty in between
+    readable_unread: u32,
+    ignored_input: Option<String>,
     reply_latency: u64,
     vt: VtState,
     modes: Modes,
@@ -616,6 +619,7 @@ fn real_readable(fd: RawFd) -> bool {
 impl rustix::sim::Hooks for HooksImpl {
     fn read(&mut self, buf: &mut [u8]) -> rustix::io::Result<usize> {
         let mut k = self.0.borrow_mut();
+        k.readable_unread = 0;
         k.tick();
         k.run_due();
         if k.in_queue.is_empty() {
@@ -750,6 +754,16 @@ impl rustix::sim::Hooks for HooksImpl {
                     set.fill(FdSetElement::default());
                     for fd in ready_w.iter() {
                         fd_set_insert(set, *fd);
+                    }
+                }
+                if ready_r.contains(&tty) {
+                    // level triggered: whoever is told that the tty is readable and does not
+                    // read it will be told again; a caller that keeps going round like that
+                    // (while it writes output, say) starves the input
+                    k.readable_unread += 1;
+                    if k.readable_unread > 8 && k.ignored_input.is_none() {
+                        k.src.probe("tty-readable-reported-but-not-read");
+                        k.ignored_input = Some(format!("select reported the tty readable {} times in a row (writable as well: {}) and the tty was not read in between", k.readable_unread, ready_w.contains(&tty)));
                     }
                 }
                 k.src.sig(0x5e1ec0 + ready_r.len() as u64 * 4 + ready_w.len() as u64);
@@ -957,6 +971,8 @@ fn new_kernel(mut src: Src) -> Kernel {
         drain_latency,
         stalled_until: 0,
         hung: false,
+        readable_unread: 0,
+        ignored_input: None,
         reply_latency,
         vt: VtState::Ground,
         modes: Modes { cursor_visible: true, ..Default::default() },
@@ -1406,11 +1422,29 @@ fn session(ctx: &Ctx, kernel: &K) -> WorldResult {
                 // execute command
                 let cmd = {
                     let mut k = kernel.borrow_mut();
-                    match k.src.draw(8) {
+                    match k.src.draw(12) {
                         0 => TerminalCommand::Char('x'),
                         1 => TerminalCommand::CursorTo(Position::new(k.src.draw(50) as usize, k.src.draw(200) as usize)),
                         2 => TerminalCommand::Face(Face::default()),
                         3 => TerminalCommand::EraseChars(1 + k.src.draw(20) as usize),
+                        8 | 9 => {
+                            // a few faces, so that the same one comes again after other commands
+                            let faces: [&str; 3] = ["fg=#000000,bg=#ffffff,bold", "fg=#ff0000", "bg=#0000ff,underline,italic"];
+                            TerminalCommand::Face(faces[k.src.draw(3) as usize].parse().expect("face"))
+                        }
+                        10 => {
+                            let mut modify = surf_n_term::FaceModify::default();
+                            match k.src.draw(3) {
+                                0 => {}
+                                1 => modify.bold = Some(true),
+                                _ => {
+                                    modify.reset = true;
+                                    modify.italic = Some(false);
+                                }
+                            }
+                            TerminalCommand::FaceModify(modify)
+                        }
+                        11 => k.src.pick(&[TerminalCommand::EraseLine, TerminalCommand::EraseLineRight, TerminalCommand::CursorSave, TerminalCommand::CursorRestore]).clone(),
                         4 => {
                             hid_cursor = true;
                             TerminalCommand::visible_cursor_set(false)
@@ -1420,8 +1454,11 @@ fn session(ctx: &Ctx, kernel: &K) -> WorldResult {
                         _ => TerminalCommand::Title("title".to_string()),
                     }
                 };
+                // what the command encodes to does not depend on what was executed before it: the
+                // reference is a fresh encoder per command (none of these commands touches the
+                // only state an encoder legitimately keeps, the keyboard level)
                 let mut bytes = Vec::new();
-                let _ = app.encoder.encode(&mut bytes, cmd.clone());
+                let _ = TTYEncoder::new(caps.clone()).encode(&mut bytes, cmd.clone());
                 app.history.on_write_bytes(bytes.len());
                 app.expected.extend_from_slice(&bytes);
                 let res = app.term.as_mut().unwrap().execute(cmd.clone());
@@ -1723,6 +1760,9 @@ fn session(ctx: &Ctx, kernel: &K) -> WorldResult {
         }
     }
     if prop == "C17" {
+        if let Some(msg) = kernel.borrow_mut().ignored_input.take() {
+            return Err(violation("C17", "C17.starved-input", "tty-readable-but-not-read", msg));
+        }
         if let Some(msg) = app.overstay.take() {
             return Err(violation("C17", "C17.unbounded-poll", "event-held-past-deadline", msg));
         }
